@@ -23,6 +23,10 @@ impl<'a> Tape<'a> {
     pub fn pos(&self) -> usize {
         self.pos
     }
+    pub fn to_vec(&self) -> Vec<u8> {
+        let p = self.pos.min(self.data.len());
+        self.data[p..].to_vec()
+    }
     /// a tape over the unread remainder
     pub fn rest(&self) -> Tape<'a> {
         let p = self.pos.min(self.data.len());
